@@ -229,13 +229,14 @@ func writeEvidence(p *Program, pr *Property, res *RunResult, tier string, seed i
 	for k, v := range extra {
 		cov[k] = v
 	}
+	assumptions := append([]string{"go/types, go/ssa and the VTA call graph (an over-approximation of dynamic calls) are sound for the analysed constructs; the rules decide structural necessary conditions, not the behavioural statement"}, pr.Assumptions...)
 	ev := map[string]any{
 		"property_id": pr.ID,
 		"tier":        tier,
 		"seed":        seed,
 		"level":       "other",
 		"coverage":    cov,
-		"assumptions": pr.Assumptions,
+		"assumptions": assumptions,
 		"wall_s":      float64(int(wall*100)) / 100,
 		"violations":  len(res.Violations),
 	}
